@@ -441,9 +441,71 @@ func genFault(out *vc.Out) {
 	}
 }
 
+// ---- DomainRegistry: sequential histories (compared with the model) and simultaneous claimants (single owner)
+
+func genRegistry(out *vc.Out, r *vc.Rand, thorough bool) {
+	bases := []string{baseA}
+	act := "active"
+	e := func(sub, base string, client int64, id string) ext { return extOf(sub, base, client, act, false, 0, id) }
+	seqs := [][]rop{
+		{{kind: 'r', e: e("a", baseA, 1, "m1")}, {kind: 'r', e: e("a", baseA, 2, "m2")}, {kind: 'l', s: "a." + baseA + ":80"},
+			{kind: 'r', e: e("a", baseA, 1, "m1")}, {kind: 'x', s: "a." + baseA}, {kind: 'l', s: "a." + baseA},
+			{kind: 'r', e: e("a", baseA, 2, "m2")}, {kind: 'l', s: "a." + baseA}, {kind: 'x', s: "nope"}},
+		{{kind: 'r', e: e("", baseA, 1, "m1")}, {kind: 'r', e: e("a", "", 1, "m1")}, {kind: 'r', e: e("a", "other.net", 1, "m1")},
+			{kind: 'l', s: "a.other.net"}, {kind: 'r', e: e("A", baseA, 3, "m3")}, {kind: 'l', s: "A." + baseA}, {kind: 'l', s: "a." + baseA}},
+	}
+	for _, ops := range seqs {
+		cs := regSeqCase(bases, ops)
+		out.Count("kind:registry-seq")
+		out.Case(cs, execRegSeq(bases, ops), cs)
+	}
+	// no configured base domains: every base is allowed
+	{
+		ops := []rop{{kind: 'r', e: e("a", "any.net", 1, "m1")}, {kind: 'l', s: "a.any.net:1"}}
+		cs := regSeqCase(nil, ops)
+		out.Count("kind:registry-seq")
+		out.Case(cs, execRegSeq(nil, ops), cs)
+	}
+	for k := 0; k < 60; k++ {
+		var ops []rop
+		for j := 2 + r.Intn(8); j > 0; j-- {
+			sub := vc.Pick(r, []string{"a", "b"})
+			switch r.Intn(4) {
+			case 0, 1:
+				id := 1 + r.Intn(3)
+				ops = append(ops, rop{kind: 'r', e: e(sub, vc.Pick(r, []string{baseA, baseA, "x.net"}), int64(id), fmt.Sprintf("m%d", id))})
+			case 2:
+				ops = append(ops, rop{kind: 'x', s: sub + "." + baseA})
+			default:
+				ops = append(ops, rop{kind: 'l', s: sub + "." + baseA + vc.Pick(r, []string{"", ":80"})})
+			}
+		}
+		cs := regSeqCase(bases, ops)
+		out.Count("kind:registry-seq")
+		out.Case(cs, execRegSeq(bases, ops), cs)
+	}
+	// simultaneous claimants of one unclaimed name, different mapping ids
+	rounds := 1500
+	if thorough {
+		rounds = 20000
+	}
+	for j := 0; j < rounds; j++ {
+		n := 2 + j%7
+		var cls []ext
+		for i := 0; i < n; i++ {
+			cls = append(cls, e("shared", baseA, int64(1000+i), fmt.Sprintf("pm_%d", i)))
+		}
+		hold := j%2 == 0
+		cs := raceCase(bases, cls, hold, j)
+		out.Count(fmt.Sprintf("kind:registry-race:hold=%v", hold))
+		out.Case(cs, execRace(bases, cls, hold), "")
+	}
+}
+
 func generate(out *vc.Out, r *vc.Rand, thorough bool) {
 	genBoundary(out)
 	genFault(out)
+	genRegistry(out, r.Fork(), thorough)
 	genSpellings(out, r, thorough)
 	genTemplates(out, r.Fork(), thorough)
 	if thorough {
